@@ -41,8 +41,8 @@ func (c GovConfig) isMember(a common.Address) bool {
 }
 
 type Governance struct {
-	Configs    []GovConfig            // accepted configs in order (genesis first)
-	Started    map[int]bool           // position -> started
+	Configs    []GovConfig               // accepted configs in order (genesis first)
+	Started    map[int]bool              // position -> started
 	roundVotes map[common.Address]string // first accepted vote of the round per sender
 	seenNonce  map[string]bool
 	maxEon     uint64
